@@ -185,6 +185,38 @@ Proof.
   unfold rename. cbn. rewrite Hn. cbn. rewrite Hnm. reflexivity.
 Qed.
 
+(* the two-path cases of rename: out of a subdirectory d of par into par, and from par into its subdirectory d *)
+Lemma assoc_remove_other {A} k k' (a : list (text * A)) :
+  text_eqb k k' = false -> assoc_t k (remove_t k' a) = assoc_t k a.
+Proof.
+  intro H. induction a as [|[k2 v2] a IH]; cbn; [reflexivity|].
+  destruct (text_eqb k' k2) eqn:E2.
+  - apply text_eqb_eq in E2. subst k2. rewrite H. reflexivity.
+  - cbn. destruct (text_eqb k k2); [reflexivity|exact IH].
+Qed.
+
+Lemma rename_out_of_subdir par d n m ch chd x fs :
+  lookup par fs = Some (NDir ch) -> assoc_t d ch = Some (NDir chd) -> assoc_t n chd = Some x ->
+  text_eqb d m = false ->
+  rename (par ++ [d; n]) (par ++ [m]) fs
+  = Some (graft par (NDir (replace_t d (NDir (remove_t n chd)) ch ++ [(m, x)])) fs).
+Proof.
+  intros H Hd Hn Hdm. pose proof (rename_app par [d] n [] m fs _ H) as E. cbn [app] in E. rewrite E.
+  unfold rename. cbn. rewrite Hd. cbn. rewrite Hn. cbn. rewrite Hdm. cbn. reflexivity.
+Qed.
+
+Lemma rename_into_subdir par d n m ch chd x fs :
+  lookup par fs = Some (NDir ch) -> assoc_t d ch = Some (NDir chd) -> assoc_t n ch = Some x ->
+  text_eqb n d = false ->
+  rename (par ++ [n]) (par ++ [d; m]) fs
+  = Some (graft par (NDir (replace_t d (NDir (chd ++ [(m, x)])) (remove_t n ch))) fs).
+Proof.
+  intros H Hd Hn Hnd. pose proof (rename_app par [] n [d] m fs _ H) as E. cbn [app] in E. rewrite E.
+  assert (Hd' : assoc_t d (remove_t n ch) = Some (NDir chd)).
+  { rewrite assoc_remove_other; [exact Hd|]. rewrite text_eqb_sym. exact Hnd. }
+  unfold rename. cbn. rewrite Hn. cbn. rewrite Hnd. cbn. unfold is_dir. cbn. rewrite Hd. cbn. rewrite Hd'. cbn. reflexivity.
+Qed.
+
 Lemma resolve_empty cwd : Session.resolve cwd [] = cwd.
 Proof. unfold Session.resolve. cbn. apply rev_involutive. Qed.
 
@@ -377,6 +409,17 @@ Section Sess.
     { unfold exists_. rewrite (lookup_child par m ch fs Hpar), Hm. reflexivity. }
     pose proof (rename_sibling par n m ch x fs Hpar Hn Hnm) as Hrn.
     repeat (cbn; rewrite ?Hres, ?Hex, ?Hu, ?Hw, ?Hrn). finish.
+  Qed.
+
+  (* RNTO in general: whatever the two paths are, the handler renames the remembered source to the resolved target *)
+  Lemma step_rnto_gen w cwd arg src dst fs' :
+    ready w cwd -> s_rnfr (w_s w) = Some src -> Session.resolve cwd arg = dst -> rw dst ->
+    exists_ dst (w_fs w) = false -> rename src dst (w_fs w) = Some fs' ->
+    exists w' o, stp w (mkev "rnto" arg DNone) = (w', o) /\ o_codes o = [code "250"] /\
+      w_fs w' = fs' /\ ready w' cwd.
+  Proof.
+    intros Hrd Hfrom Hres [_ Hw] Hex Hrn. start "rnto"%string "rnto"%string false.
+    repeat (cbn; rewrite ?Hex, ?Hu, ?Hw, ?Hrn). finish.
   Qed.
 
   Lemma step_rmd w cwd arg par n ch :
@@ -664,6 +707,89 @@ Section Compose.
     exists wb, o1, o2. cbn [irun istep].
     rewrite (cstep_path w _ _ p DNone v_rnfr Hp), Ea, (cstep_path wa _ _ q DNone v_rnto Hq), Eb.
     repeat split; try assumption; try apply Hrb. congruence.
+  Qed.
+
+  (* ---- RNFR, RNTO between DIFFERENT directories: whatever the spellings and the working directory ---- *)
+  Lemma nt_rename_gen w cwd p q src dst x fs' :
+    ready w cwd -> valid_path p -> valid_path q -> target cwd p = src -> target cwd q = dst ->
+    rw src -> rw dst -> lookup src (w_fs w) = Some x -> exists_ dst (w_fs w) = false ->
+    rename src dst (w_fs w) = Some fs' ->
+    exists w' o1 o2,
+      irun w [ILine (client_cmd (t_of "RNFR") p) DNone; ILine (client_cmd (t_of "RNTO") q) DNone] = Some (w', [o1; o2]) /\
+      o_codes o1 = [code "350"] /\ o_codes o2 = [code "250"] /\ w_fs w' = fs' /\ ready w' cwd.
+  Proof.
+    intros Hrd Hp Hq Htp Htq Hrws Hrwd Hlk Hex Hrn.
+    destruct (step_rnfr users ui u Hu w cwd (to_str p) src x Hrd) as [wa [o1 [Ea [Hc1 [Hfrom [Hfa Hra]]]]]];
+      try assumption; [rewrite (resolve_to_str cwd p Hp); exact Htp|].
+    destruct (step_rnto_gen users ui u Hu wa cwd (to_str q) src dst fs' Hra Hfrom) as [wb [o2 [Eb [Hc2 [Hfb Hrb]]]]];
+      try assumption; try (rewrite Hfa; assumption); [rewrite (resolve_to_str cwd q Hq); exact Htq|].
+    exists wb, o1, o2. cbn [NamesSession.irun NamesSession.istep].
+    rewrite (cstep_path w _ _ p DNone v_rnfr Hp), Ea, (cstep_path wa _ _ q DNone v_rnto Hq), Eb.
+    repeat split; try assumption; apply Hrb.
+  Qed.
+
+  (* out of the subdirectory d of par into par (rename("box/old", "new") from par), for ANY spelling of the two paths
+     and ANY working directory: the node is at par/m, the source directory lost exactly that entry *)
+  Theorem nt_rename_out w cwd p q par d n m ch chd x :
+    ready w cwd -> valid_path p -> valid_path q -> target cwd p = par ++ [d; n] -> target cwd q = par ++ [m] ->
+    rw (par ++ [d; n]) -> rw (par ++ [m]) ->
+    lookup par (w_fs w) = Some (NDir ch) -> assoc_t d ch = Some (NDir chd) -> assoc_t n chd = Some x ->
+    assoc_t m ch = None ->
+    exists w' o1 o2,
+      irun w [ILine (client_cmd (t_of "RNFR") p) DNone; ILine (client_cmd (t_of "RNTO") q) DNone] = Some (w', [o1; o2]) /\
+      o_codes o1 = [code "350"] /\ o_codes o2 = [code "250"] /\
+      w_fs w' = graft par (NDir (replace_t d (NDir (remove_t n chd)) ch ++ [(m, x)])) (w_fs w) /\
+      lookup (par ++ [m]) (w_fs w') = Some x /\
+      lookup (par ++ [d; n]) (w_fs w') = assoc_t n (remove_t n chd) /\ ready w' cwd.
+  Proof.
+    intros Hrd Hp Hq Htp Htq Hrws Hrwd Hpar Hd Hn Hm.
+    assert (Hdm : text_eqb d m = false).
+    { destruct (text_eqb d m) eqn:E; [|reflexivity]. apply text_eqb_eq in E. subst m. congruence. }
+    assert (Hsrc : lookup (par ++ [d; n]) (w_fs w) = Some x).
+    { rewrite (lookup_app par [d; n] _ _ Hpar). unfold lookup. rewrite Hd, Hn. reflexivity. }
+    assert (Hex : exists_ (par ++ [m]) (w_fs w) = false)
+      by (unfold exists_; rewrite (lookup_child par m ch _ Hpar), Hm; reflexivity).
+    destruct (nt_rename_gen w cwd p q _ _ x _ Hrd Hp Hq Htp Htq Hrws Hrwd Hsrc Hex
+                (rename_out_of_subdir par d n m ch chd x (w_fs w) Hpar Hd Hn Hdm)) as [w' [o1 [o2 [E [C1 [C2 [Hf Hr]]]]]]].
+    exists w', o1, o2.
+    set (ch' := replace_t d (NDir (remove_t n chd)) ch ++ [(m, x)]) in *.
+    assert (Hp' : lookup par (w_fs w') = Some (NDir ch')) by (rewrite Hf; eapply lookup_graft_same; exact Hpar).
+    assert (Hm' : assoc_t m (replace_t d (NDir (remove_t n chd)) ch) = None).
+    { rewrite assoc_replace_other; [exact Hm|]. rewrite text_eqb_sym. exact Hdm. }
+    repeat split; try assumption; try apply Hr.
+    - rewrite (lookup_child par m _ _ Hp'). apply assoc_snoc_new. exact Hm'.
+    - rewrite (lookup_app par [d; n] _ _ Hp'). unfold lookup, ch'. rewrite (assoc_snoc_other d m _ _ Hdm).
+      rewrite (assoc_replace_same d _ ch _ Hd). destruct (assoc_t n (remove_t n chd)); reflexivity.
+  Qed.
+
+  (* from par into its subdirectory d *)
+  Theorem nt_rename_into w cwd p q par d n m ch chd x :
+    ready w cwd -> valid_path p -> valid_path q -> target cwd p = par ++ [n] -> target cwd q = par ++ [d; m] ->
+    rw (par ++ [n]) -> rw (par ++ [d; m]) ->
+    lookup par (w_fs w) = Some (NDir ch) -> assoc_t d ch = Some (NDir chd) -> assoc_t n ch = Some x ->
+    assoc_t m chd = None -> n <> d ->
+    exists w' o1 o2,
+      irun w [ILine (client_cmd (t_of "RNFR") p) DNone; ILine (client_cmd (t_of "RNTO") q) DNone] = Some (w', [o1; o2]) /\
+      o_codes o1 = [code "350"] /\ o_codes o2 = [code "250"] /\
+      w_fs w' = graft par (NDir (replace_t d (NDir (chd ++ [(m, x)])) (remove_t n ch))) (w_fs w) /\
+      lookup (par ++ [d; m]) (w_fs w') = Some x /\ ready w' cwd.
+  Proof.
+    intros Hrd Hp Hq Htp Htq Hrws Hrwd Hpar Hd Hn Hm Hnd.
+    assert (Hnd' : text_eqb n d = false).
+    { destruct (text_eqb n d) eqn:E; [|reflexivity]. apply text_eqb_eq in E. contradiction. }
+    assert (Hsrc : lookup (par ++ [n]) (w_fs w) = Some x) by (rewrite (lookup_child par n ch _ Hpar); exact Hn).
+    assert (Hex : exists_ (par ++ [d; m]) (w_fs w) = false).
+    { unfold exists_. rewrite (lookup_app par [d; m] _ _ Hpar). unfold lookup. rewrite Hd, Hm. reflexivity. }
+    destruct (nt_rename_gen w cwd p q _ _ x _ Hrd Hp Hq Htp Htq Hrws Hrwd Hsrc Hex
+                (rename_into_subdir par d n m ch chd x (w_fs w) Hpar Hd Hn Hnd')) as [w' [o1 [o2 [E [C1 [C2 [Hf Hr]]]]]]].
+    exists w', o1, o2.
+    assert (Hd' : assoc_t d (remove_t n ch) = Some (NDir chd)).
+    { rewrite assoc_remove_other; [exact Hd|]. rewrite text_eqb_sym. exact Hnd'. }
+    assert (Hp' : lookup par (w_fs w') = Some (NDir (replace_t d (NDir (chd ++ [(m, x)])) (remove_t n ch))))
+      by (rewrite Hf; eapply lookup_graft_same; exact Hpar).
+    repeat split; try assumption; try apply Hr.
+    rewrite (lookup_app par [d; m] _ _ Hp'). unfold lookup.
+    rewrite (assoc_replace_same d _ _ _ Hd'), (assoc_snoc_new m chd x Hm). reflexivity.
   Qed.
 
   (* ---- RMD ---- *)
